@@ -279,6 +279,18 @@ pub enum Link {
     Average,
     Weighted,
     Ward,
+    /// non-monotone: the dendrogram stays in merge order and may contain inversions
+    Centroid,
+    Median,
+}
+impl Link {
+    /// kodama runs these on squared dissimilarities and reports the square root
+    pub fn on_squares(self) -> bool {
+        matches!(self, Link::Ward | Link::Centroid | Link::Median)
+    }
+    pub fn monotone(self) -> bool {
+        !matches!(self, Link::Centroid | Link::Median)
+    }
 }
 
 pub struct Agglomeration {
@@ -295,7 +307,7 @@ pub struct Agglomeration {
 pub fn agglomerate(d: &Mat, link: Link) -> Agglomeration {
     let n = d.len();
     let mut m: Mat = d.clone();
-    if link == Link::Ward {
+    if link.on_squares() {
         for r in m.iter_mut() {
             for v in r.iter_mut() {
                 *v = *v * *v;
@@ -337,7 +349,7 @@ pub fn agglomerate(d: &Mat, link: Link) -> Agglomeration {
         let Some((a, b, v)) = best else { break };
         let amb = !v.is_finite() || (second.is_finite() && second - v <= MERGE_GAP * (1.0 + v.abs().max(second.abs())));
         ambiguous.push(amb);
-        let h = if link == Link::Ward { v.max(0.0).sqrt() } else { v };
+        let h = if link.on_squares() { v.max(0.0).sqrt() } else { v };
         if h < last - MERGE_GAP * (1.0 + h.abs().max(last.abs())) {
             monotone = false;
         }
@@ -357,6 +369,8 @@ pub fn agglomerate(d: &Mat, link: Link) -> Agglomeration {
                 Link::Average => (na * dax + nb * dbx) / (na + nb),
                 Link::Weighted => 0.5 * (dax + dbx),
                 Link::Ward => ((na + nx) * dax + (nb + nx) * dbx - nx * v) / (na + nb + nx),
+                Link::Centroid => (na * dax + nb * dbx) / (na + nb) - na * nb * v / ((na + nb) * (na + nb)),
+                Link::Median => 0.5 * (dax + dbx) - 0.25 * v,
             };
             m[b][x] = new;
             m[x][b] = new;
@@ -367,6 +381,10 @@ pub fn agglomerate(d: &Mat, link: Link) -> Agglomeration {
     Agglomeration { merges, ambiguous, monotone }
 }
 
+/// Documented rule of the Distance criterion ("the merging process will stop [when] the distance exceeds this
+/// value"; the code stops in front of the first step with dissimilarity >= theta): walk the dendrogram in
+/// merge order and stop at the first step that is not below the threshold. For the monotone linkages this is
+/// "every merge below the threshold"; for Centroid/Median (inversions) later, smaller merges are not performed.
 /// partition after performing, in order, every merge whose height is < theta
 pub fn cut_below(n: usize, agg: &Agglomeration, theta: f64) -> Vec<usize> {
     let mut u = Dsu::new(n);
